@@ -259,6 +259,9 @@ func (vc *VC) val(st *State, v ssa.Value) Val {
 func (vc *VC) load(st *State, p Val, instr ssa.Instruction) Term {
 	if p.Loc != nil {
 		l := p.Loc
+		if !l.Scalar {
+			vc.locksetCheck(st, l.Arr, l.Base, instr, "read")
+		}
 		switch {
 		case l.Scalar:
 			return vc.hget(st.heap, l.Arr, l.ESort)
@@ -272,6 +275,7 @@ func (vc *VC) load(st *State, p Val, instr ssa.Instruction) Term {
 	if !ok {
 		vc.unsupported(instr, "load through non-pointer")
 	}
+	vc.locksetCheck(st, cellArr(sortOf(et)), p.T, instr, "read")
 	if _, isStruct := types.Unalias(et).Underlying().(*types.Struct); isStruct {
 		if _, opaque := isOpaqueStruct(et); !opaque {
 			vc.unsupported(instr, "load of whole struct value %v", et)
@@ -284,6 +288,9 @@ func (vc *VC) load(st *State, p Val, instr ssa.Instruction) Term {
 func (vc *VC) store(st *State, p Val, v Term, instr ssa.Instruction) {
 	if p.Loc != nil {
 		l := p.Loc
+		if !l.Scalar {
+			vc.locksetCheck(st, l.Arr, l.Base, instr, "write")
+		}
 		switch {
 		case l.Scalar:
 			vc.setHeap(st, l.Arr, l.ESort, v)
@@ -301,6 +308,7 @@ func (vc *VC) store(st *State, p Val, v Term, instr ssa.Instruction) {
 		vc.unsupported(instr, "store through non-pointer")
 	}
 	s := sortOf(et)
+	vc.locksetCheck(st, cellArr(s), p.T, instr, "write")
 	arr := vc.hget(st.heap, cellArr(s), arrSort(s))
 	vc.setHeap(st, cellArr(s), arrSort(s), app("store", arr, p.T, v))
 }
@@ -320,6 +328,11 @@ func (vc *VC) zeroInit(st *State, ref Term, t types.Type) {
 		arr, subobj := fieldArr(t, f)
 		if subobj {
 			sub := vc.stepField(st.heap, TV{T: ref, S: goSType(types.NewPointer(t))}, i)
+			// the embedded sub-object of a fresh object is fresh as well: it is numbered after its parent, and the
+			// allocation counter moves past it
+			nt := vc.d.freshConst("top_sub", "Int")
+			st.assume = append(st.assume, app(">=", sub.T, ref), app(">=", nt, vc.top(st)), app(">=", nt, sub.T))
+			vc.setHeap(st, "top", "Int", nt)
 			vc.zeroInit(st, sub.T, f.Type())
 			continue
 		}
@@ -414,6 +427,16 @@ func (vc *VC) fnEnv(st *State, old *Heap) *Env {
 		}
 		return TV{}, false
 	}
+	e.cellPtr = func(name string) (Term, types.Type, bool) {
+		for _, fv := range fn.FreeVars {
+			if fv.Name() == name {
+				if et, ok := derefType(fv.Type()); ok && !isPlainStruct(et) {
+					return st.vals[fv].T, et, true
+				}
+			}
+		}
+		return "", nil, false
+	}
 	if vc.effective != nil && vc.effective.Thread {
 		e.vars["tid"] = TV{T: vc.d.declConst("tid_self", "Int"), S: stInt}
 	}
@@ -500,6 +523,22 @@ func (vc *VC) loopEnv(st *State, li *loopInfo, old *Heap) *Env {
 						if phi, ok := ins.(*ssa.Phi); ok && phi.Comment == "rangeindex" {
 							if pv, ok := st.vals[phi]; ok {
 								return TV{T: app("+", pv.T, "1"), S: stInt}, true
+							}
+						}
+					}
+				}
+			}
+		}
+		if name == "_visited" {
+			// the set of keys a map-range loop has delivered so far
+			for _, ins := range li.header.Instrs {
+				if nx, ok := ins.(*ssa.Next); ok {
+					if r, ok := nx.Iter.(*ssa.Range); ok {
+						if mt, ok := types.Unalias(r.X.Type()).Underlying().(*types.Map); ok {
+							if id, ok := st.vals[r]; ok {
+								ks := sortOf(mt.Key())
+								vis := vc.hget(ce.heap, "IterVisited_"+sortID(ks), mapDomSort(ks))
+								return TV{T: app("select", vis, id.T), S: &SType{Sort: fmt.Sprintf("(Array %s Bool)", ks), Key: goSType(mt.Key()), Elem: stBool}}, true
 							}
 						}
 					}
@@ -660,7 +699,7 @@ func (vc *VC) loopModifies(st *State, li *loopInfo) map[string]*modInfo {
 				if rootFresh(x.Map) {
 					continue
 				}
-				add(mapDomArr(ks), mapDomSort(ks), base, inv, false)
+				add(mapDomArr(ks, vs), mapDomSort(ks), base, inv, false)
 				add(mapValArr(ks, vs), mapValSort(ks, vs), base, inv, false)
 			case *ssa.Go:
 				add("GV_Forks", "Int", "", false, true)
@@ -675,12 +714,11 @@ func (vc *VC) loopModifies(st *State, li *loopInfo) map[string]*modInfo {
 						inv := true
 						var binds []Term
 						for _, b := range mc.Bindings {
-							if inLoop(b) {
-								inv = false
-							} else if bv, ok := st.vals[b]; ok {
+							if bv, ok := st.vals[b]; ok && !inLoop(b) {
 								binds = append(binds, bv.T)
 							} else {
-								inv = false
+								// a binding created inside the loop: only matters if the WaitGroup expression uses it
+								binds = append(binds, "loopvarying_binding")
 							}
 						}
 						var base Term
@@ -700,6 +738,9 @@ func (vc *VC) loopModifies(st *State, li *loopInfo) map[string]*modInfo {
 									}
 								}()
 								base = vc.calleeEnv(ci, st.heap, st.heap).tr(c.ThreadWG).T
+								if strings.Contains(base, "loopvarying_binding") {
+									inv = false
+								}
 							}()
 						}
 						add("G_sync_WaitGroup_Forked", arrSort("Int"), base, inv, false)
@@ -1290,8 +1331,8 @@ func (vc *VC) execInstr(st *State, ins ssa.Instruction) {
 		a := vc.alloc(st, "map")
 		mt := types.Unalias(x.Type()).Underlying().(*types.Map)
 		ks, vs := sortOf(mt.Key()), sortOf(mt.Elem())
-		md := vc.hget(st.heap, mapDomArr(ks), mapDomSort(ks))
-		vc.setHeap(st, mapDomArr(ks), mapDomSort(ks), app("store", md, a, fmt.Sprintf("((as const (Array %s Bool)) false)", ks)))
+		md := vc.hget(st.heap, mapDomArr(ks, vs), mapDomSort(ks))
+		vc.setHeap(st, mapDomArr(ks, vs), mapDomSort(ks), app("store", md, a, fmt.Sprintf("((as const (Array %s Bool)) false)", ks)))
 		vc.hget(st.heap, mapValArr(ks, vs), mapValSort(ks, vs))
 		st.vals[x] = Val{T: a, Typ: x.Type()}
 	case *ssa.MakeClosure:
@@ -1346,9 +1387,9 @@ func (vc *VC) execInstr(st *State, ins ssa.Instruction) {
 		mt := types.Unalias(x.Map.Type()).Underlying().(*types.Map)
 		ks, vs := sortOf(mt.Key()), sortOf(mt.Elem())
 		vc.safety(st, not(eq(m.T, "0")), "nil-map-write", x)
-		md := vc.hget(st.heap, mapDomArr(ks), mapDomSort(ks))
+		md := vc.hget(st.heap, mapDomArr(ks, vs), mapDomSort(ks))
 		mv := vc.hget(st.heap, mapValArr(ks, vs), mapValSort(ks, vs))
-		vc.setHeap(st, mapDomArr(ks), mapDomSort(ks), app("store", md, m.T, app("store", app("select", md, m.T), k, "true")))
+		vc.setHeap(st, mapDomArr(ks, vs), mapDomSort(ks), app("store", md, m.T, app("store", app("select", md, m.T), k, "true")))
 		vc.setHeap(st, mapValArr(ks, vs), mapValSort(ks, vs), app("store", mv, m.T, app("store", app("select", mv, m.T), k, v)))
 	case *ssa.Range:
 		vc.execRange(st, x)
@@ -1590,7 +1631,7 @@ func (vc *VC) execLookup(st *State, x *ssa.Lookup) {
 	k := vc.val(st, x.Index).T
 	if mt, ok := types.Unalias(x.X.Type()).Underlying().(*types.Map); ok {
 		ks, vs := sortOf(mt.Key()), sortOf(mt.Elem())
-		md := vc.hget(st.heap, mapDomArr(ks), mapDomSort(ks))
+		md := vc.hget(st.heap, mapDomArr(ks, vs), mapDomSort(ks))
 		mv := vc.hget(st.heap, mapValArr(ks, vs), mapValSort(ks, vs))
 		// a nil map reads as empty
 		in := and(not(eq(m.T, "0")), app("select", app("select", md, m.T), k))
@@ -1641,7 +1682,7 @@ func (vc *VC) execNext(st *State, x *ssa.Next) {
 		it = &iterInfo{mapTerm: vc.val(st, r.X).T, kSort: ks, vSort: vs, visited: "IterVisited_" + sortID(ks), id: vc.val(st, r).T}
 	}
 	ks, vs := it.kSort, it.vSort
-	md := vc.hget(st.heap, mapDomArr(ks), mapDomSort(ks))
+	md := vc.hget(st.heap, mapDomArr(ks, vs), mapDomSort(ks))
 	mv := vc.hget(st.heap, mapValArr(ks, vs), mapValSort(ks, vs))
 	vis := vc.hget(st.heap, it.visited, mapDomSort(ks))
 	ok := vc.d.freshConst("next_ok", "Bool")
@@ -1650,8 +1691,10 @@ func (vc *VC) execNext(st *State, x *ssa.Next) {
 	dom := app("select", md, it.mapTerm)
 	visited := app("select", vis, it.id)
 	st.assume = append(st.assume,
-		implies(ok, and(app("select", dom, k), not(app("select", visited, k)), eq(v, app("select", app("select", mv, it.mapTerm), k)))),
-		implies(not(ok), fmt.Sprintf("(forall ((kk %s)) (! (=> (select %s kk) (select %s kk)) :pattern ((select %s kk))))", ks, dom, visited, dom)))
+		implies(ok, and(not(eq(it.mapTerm, "0")), app("select", dom, k), not(app("select", visited, k)), eq(v, app("select", app("select", mv, it.mapTerm), k)))),
+		implies(not(ok), fmt.Sprintf("(forall ((kk %s)) (! (=> (select %s kk) (select %s kk)) :pattern ((select %s kk))))", ks, dom, visited, dom)),
+		// array extensionality, spelled out for the exit of the loop: delivered keys == domain makes the two sets equal
+		implies(not(ok), fmt.Sprintf("(=> (forall ((kk %s)) (! (=> (select %s kk) (select %s kk)) :pattern ((select %s kk)))) (= %s %s))", ks, visited, dom, visited, visited, dom)))
 	vc.setHeap(st, it.visited, mapDomSort(ks), app("store", vis, it.id, app("ite", ok, app("store", visited, k, "true"), visited)))
 	tup := x.Type().(*types.Tuple)
 	st.vals[x] = Val{Tuple: []Val{{T: ok, Typ: types.Typ[types.Bool]}, {T: k, Typ: tup.At(1).Type()}, {T: v, Typ: tup.At(2).Type()}}}
